@@ -96,7 +96,7 @@ def check_programs(ctx, progs, dirname, backends=progrun.BACKENDS, prop="c01"):
 
 def run(ctx):
     build.ensure_toolchain("rel")
-    nprog = ctx.pick(48, 480)
+    nprog = ctx.pick(32, 480)
     ncases = 40
     ctx.rule = ("case = one generated closed program fragment (function case_k of a batch program, with its integer inputs from argv "
                 "or literals) run on one code generator; distinct = distinct (IR shape with constants abstracted, code generator); "
